@@ -1,23 +1,10 @@
 #!/bin/sh
-# Builds /repo with its own CMake (no verification guard defined) into a scratch directory and runs the pinned test suite.
-set -e
-B=/verif/.work/baseline_build
-rm -rf "$B"
-mkdir -p "$B"
-cmake -G Ninja -S /repo -B "$B" -DCMAKE_BUILD_TYPE=RelWithDebInfo >/dev/null
-cmake --build "$B" -j16 >/dev/null
-set +e
-ctest --test-dir "$B" -j8 --timeout 900 --output-junit "$B/junit.xml"
+# Builds /repo with its own CMake (no verification guard defined) in the repository's own build directory
+# (the tests locate their configuration files relative to it) and runs the pinned test suite.
+B=/repo/_build
+cmake -G Ninja -S /repo -B "$B" -DCMAKE_BUILD_TYPE=RelWithDebInfo >/dev/null || exit 2
+cmake --build "$B" -j16 >/dev/null || exit 2
+ctest --test-dir "$B" -j8 --timeout 900 --output-junit "$B/junit_verif.xml"
 rc=$?
-python3 - "$B/junit.xml" <<'PY'
-import sys, xml.etree.ElementTree as ET
-t = ET.parse(sys.argv[1]).getroot()
-tot = fail = 0
-for tc in t.iter("testcase"):
-    tot += 1
-    if tc.find("failure") is not None or tc.get("status") not in (None, "run"):
-        fail += 1
-print("baseline: %d ctest entries, %d failed" % (tot, fail))
-PY
-rm -rf "$B"
+rm -f "$B/junit_verif.xml"
 exit $rc
